@@ -146,3 +146,4 @@ package bytes
 //@   nopanic
 //@   ensures !(len(b) >= 2 && b[0] == '"' && b[len(b)-1] == '"') ==> result == b
 //@   ensures old(plainQuoted(b)) ==> result.$arr == b.$arr && result.$off == b.$off + 1 && len(result) == len(b) - 2
+//@   defines len(result) == old(decLen(b))
